@@ -17,11 +17,11 @@ TRUSTED_BASE = [
 ASSUMPTIONS = [
     "a method missing at a call made from the Python body of _solve raises Python's AttributeError naming it (explanatory); only calls from "
     "inside njit kernels must be statically present",
-    "accepted cells 'run to completion with finite values meeting the certificate': sampled solves (partial); full matrix in the thorough tier",
+    "accepted cells 'run to completion with finite values meeting the certificate': sampled solves (partial): 70 cells in the quick tier, 600 in the thorough tier (each cell compiles fresh numba classes: the full matrix takes hours)",
 ]
 RULE = ("correspondence (exhaustive): for all 17784 cells the model of _validate over the extracted tables vs the real solver._validate on real "
         "compiled objects (refused / accepted must agree), and every extracted method table vs hasattr; oracle: accepted cells are solved on a "
-        "6x4 problem (sampled in quick, all in thorough) and must finish with finite values or raise AttributeError / ValueError naming the "
+        "6x4 problem (70 sampled cells in quick, 600 in thorough) and must finish with finite values or raise AttributeError / ValueError naming the "
         "missing piece; non-trivial = accepted cell")
 
 
@@ -149,8 +149,8 @@ def oracle(tier, rng, deep=False):
     D, P = instances(rng, n, p)
     cells = [(s, d, pn, sp_, fi, sd) for s in tab["solvers"] for d in D for pn in P for sp_ in (False, True) for fi in (False, True) for sd in (True, False)
              if model_validate(tab, s, d, pn, sp_, sd) == "accepted"]
-    if tier == "quick":
-        cells = rng.sample(cells, 70 if not deep else 250)
+    # every cell compiles fresh numba classes (~2 s): the full matrix of accepted cells takes hours, so both tiers sample it
+    cells = rng.sample(cells, min(len(cells), (70 if not deep else 250) if tier == "quick" else 600))
     failures = []
     ev = 0
     EXPL = ("not compatible", "must implement", "Missing", "positive values", "not supported", "Sparse matrices", "should", "must be", "has no attribute",
@@ -181,7 +181,7 @@ def oracle(tier, rng, deep=False):
     flips = [(s, d, pn, fi, sd) for s in tab["solvers"] for d in D for pn in P for fi in (False,) for sd in (True, False)
              if model_validate(tab, s, d, pn, False, sd) == "accepted" and model_validate(tab, s, d, pn, True, sd) == "refused"]
     if flips:
-        for (s, d, pn, fi, sd) in (rng.sample(flips, min(len(flips), 10 if not deep else 40)) if tier == "quick" else flips):
+        for (s, d, pn, fi, sd) in rng.sample(flips, min(len(flips), (10 if not deep else 40) if tier == "quick" else 120)):
             y = targets(rng, X, D[d][1])
             site = f"{s}:{d}:{pn}"
             inp = dict(solver=s, datafit=d, penalty=pn, history=["dense", "csc"], subdiff=sd)
